@@ -21,6 +21,7 @@ import (
 	"io"
 	"log/slog"
 	"net"
+	"os"
 	"sort"
 	"strings"
 	"sync"
@@ -52,10 +53,14 @@ const (
 	sessLease    = 950
 )
 
+// handshake deadline used against a peer that swallows the request and stays silent (mode d4);
+// VERIF_C07_DEADLINE_MS overrides it (a suspected timing failure is re-run with the bound doubled)
+var silentDeadline = 250 * time.Millisecond
+
 // ---- history ----------------------------------------------------------------
 
 type event struct {
-	Kind     string `json:"k"`             // hs retry tick inval invalexp lne restart
+	Kind     string `json:"k"`             // hs retry tick inval invalexp lne restart import
 	Tag      string `json:"tag,omitempty"` // hs/retry
 	Addr     int    `json:"addr"`          // index into addrs (hs, restart); -1 = no address at all
 	Cmd      int    `json:"cmd,omitempty"` // command int (hs/retry); -1 = NoCommand
@@ -178,6 +183,8 @@ type world struct {
 	addrName []string // addresses as used by the client for server i
 	alias    map[string]string
 	keys     map[string][3]int
+	// d3: called by the silent server once it has consumed the request
+	onConsumed func()
 }
 
 func newWorld(h history) *world {
@@ -242,7 +249,10 @@ func (w *world) serve(s *serverState, conn net.Conn, mode string) seenRec {
 		out.kind = "dropped"
 		out.reply = "broken"
 		return out
-	case "d2": // read the request, then drop without replying
+	case "d2", "d3", "d4":
+		// d2: read the request, then drop without replying.
+		// d3: read the request, then stay silent; the client's context is cancelled at that moment.
+		// d4: read the request, then stay silent until the client's handshake deadline passes.
 		st := stream.NewStream(rec)
 		ctx, cancel := context.WithTimeout(context.Background(), 5*time.Second)
 		defer cancel()
@@ -252,7 +262,15 @@ func (w *world) serve(s *serverState, conn net.Conn, mode string) seenRec {
 		}
 		isRes, sid, ok := parseRequest(rec.rd.Bytes())
 		out.reply = "broken"
+		if mode != "d2" {
+			if ok && mode == "d3" && w.onConsumed != nil {
+				w.onConsumed()
+			}
+			_, _ = io.Copy(io.Discard, rec) // silent until the client gives up and closes
+		}
 		switch {
+		case !ok && mode == "d4":
+			out.kind = "dropped" // (deadline hit before the whole request arrived: request not seen)
 		case !ok:
 			out.kind = "nothing"
 		case isRes:
@@ -353,7 +371,6 @@ func (w *world) handshake(e event) (seenRec, hsResult) {
 		srvIdx = 0
 	}
 	ch := make(chan seenRec, 1)
-	go func() { ch <- w.serve(w.servers[srvIdx], sc, e.Mode) }()
 	cst := stream.NewStream(cc)
 	cfg := clientConfig(w, e)
 	switch {
@@ -368,11 +385,18 @@ func (w *world) handshake(e event) (seenRec, hsResult) {
 		cfg.PeerName = w.addrName[e.Addr]
 	}
 	auth := security.NewAuthenticator(cfg, cst)
-	ctx, cancel := context.WithTimeout(context.Background(), 5*time.Second)
+	limit := 5 * time.Second
+	if e.Mode == "d4" {
+		limit = silentDeadline
+	}
+	ctx, cancel := context.WithTimeout(context.Background(), limit)
+	w.onConsumed = cancel
+	go func() { ch <- w.serve(w.servers[srvIdx], sc, e.Mode) }()
 	neg, err := auth.ClientHandshake(ctx)
 	cancel()
 	cc.Close()
 	sv := <-ch
+	w.onConsumed = nil
 	var sre *security.SessionResumptionError
 	errSid := ""
 	if errors.As(err, &sre) {
@@ -617,6 +641,12 @@ type refSess struct {
 	exp, lease int64
 	dead       bool // dropped by a failed resumption or invalidated
 	present    bool // still stored (expired entries stay until swept)
+	// the expired entry was deleted lazily by LookupNonExpired (id lookup, explicit-SessionID
+	// handshake), which leaves its command mappings behind until the next InvalidateExpired
+	orphaned bool
+	// triples whose stale mapping (orphaned as above, never swept) leads to this re-registered id:
+	// known finding route-orphaned-by-lazy-expiry
+	orphanRoutes map[[3]string]bool
 }
 
 type refMap struct {
@@ -632,6 +662,9 @@ func (r *refMap) live(id string) bool {
 func (r *refMap) drop(id string) {
 	if s := r.sess[id]; s != nil {
 		s.dead, s.present = true, false
+		if s.orphaned {
+			return // Invalidate of an id that is no longer stored removes nothing: the orphans stay
+		}
 	}
 	for k, v := range r.routes {
 		if v == id {
@@ -641,6 +674,15 @@ func (r *refMap) drop(id string) {
 }
 
 type failure struct{ key, desc string }
+
+// orphanKey: a wrong route that is a mapping orphaned by LookupNonExpired's lazy delete, never
+// swept, and revived by a re-registration of the same id is the known finding; anything else keeps its key.
+func orphanKey(rs *refSess, tr [3]string, key string) string {
+	if rs != nil && rs.orphanRoutes[tr] {
+		return "route-orphaned-by-lazy-expiry"
+	}
+	return key
+}
 
 // ---- running one history ------------------------------------------------------
 
@@ -687,15 +729,15 @@ func runHistory(h history) runOut {
 			case rs == nil:
 				fail("lookup-returns-unrelated-session", "%s: LookupByCommand(%q,%q,%s) returns a session that was never established", what, tr[0], w.unalias(tr[1]), tr[2])
 			case rs.tag != tr[0]:
-				fail("lookup-returns-unrelated-session", "%s: LookupByCommand(tag %q, %s, cmd %s) returns %s, established under tag %q", what, tr[0], w.unalias(tr[1]), tr[2], w.sidName(id), rs.tag)
+				fail(orphanKey(rs, tr, "lookup-returns-unrelated-session"), "%s: LookupByCommand(tag %q, %s, cmd %s) returns %s, established under tag %q", what, tr[0], w.unalias(tr[1]), tr[2], w.sidName(id), rs.tag)
 			case rs.addr != tr[1]:
-				fail("lookup-returns-unrelated-session", "%s: LookupByCommand(%q, addr %s, %s) returns %s, established to %s", what, tr[0], w.unalias(tr[1]), tr[2], w.sidName(id), w.unalias(rs.addr))
+				fail(orphanKey(rs, tr, "lookup-returns-unrelated-session"), "%s: LookupByCommand(%q, addr %s, %s) returns %s, established to %s", what, tr[0], w.unalias(tr[1]), tr[2], w.sidName(id), w.unalias(rs.addr))
 			case !rs.cmds[tr[2]]:
-				fail("lookup-returns-unrelated-session", "%s: LookupByCommand(%q,%s, cmd %s) returns %s whose ValidCommands do not include it", what, tr[0], w.unalias(tr[1]), tr[2], w.sidName(id))
+				fail(orphanKey(rs, tr, "lookup-returns-unrelated-session"), "%s: LookupByCommand(%q,%s, cmd %s) returns %s whose ValidCommands do not include it", what, tr[0], w.unalias(tr[1]), tr[2], w.sidName(id))
 			case !ref.live(id):
 				fail("dead-session-still-reachable", "%s: LookupByCommand(%q,%s,%s) returns %s which is expired, dropped or invalidated", what, tr[0], w.unalias(tr[1]), tr[2], w.sidName(id))
 			case ref.routes[tr] != id:
-				fail("lookup-returns-unrelated-session", "%s: LookupByCommand(%q,%s,%s) returns %s, the reference map has %s", what, tr[0], w.unalias(tr[1]), tr[2], w.sidName(id), w.sidName(ref.routes[tr]))
+				fail(orphanKey(rs, tr, "lookup-returns-unrelated-session"), "%s: LookupByCommand(%q,%s,%s) returns %s, the reference map has %s", what, tr[0], w.unalias(tr[1]), tr[2], w.sidName(id), w.sidName(ref.routes[tr]))
 			}
 		}
 		for id, found := range s.byid {
@@ -732,15 +774,15 @@ func runHistory(h history) runOut {
 					fail("rode-wrong-session", "%s: explicit SessionID %s but the request names %s (live=%v)", what, w.sidName(w.idOfOrd(e.Explicit)), w.sidName(sv.sid), ref.live(sv.sid))
 				}
 			case rs.tag != e.Tag:
-				fail("rode-wrong-session", "%s: handshake with tag %q rides %s, established under tag %q", what, e.Tag, w.sidName(sv.sid), rs.tag)
+				fail(orphanKey(rs, tr, "rode-wrong-session"), "%s: handshake with tag %q rides %s, established under tag %q", what, e.Tag, w.sidName(sv.sid), rs.tag)
 			case rs.addr != addr:
-				fail("rode-wrong-session", "%s: handshake to %s rides %s, established to %s", what, w.unalias(addr), w.sidName(sv.sid), w.unalias(rs.addr))
+				fail(orphanKey(rs, tr, "rode-wrong-session"), "%s: handshake to %s rides %s, established to %s", what, w.unalias(addr), w.sidName(sv.sid), w.unalias(rs.addr))
 			case e.Cmd < 0 || !rs.cmds[cmdStr]:
-				fail("rode-wrong-session", "%s: handshake for command %s rides %s whose ValidCommands do not include it", what, cmdStr, w.sidName(sv.sid))
+				fail(orphanKey(rs, tr, "rode-wrong-session"), "%s: handshake for command %s rides %s whose ValidCommands do not include it", what, cmdStr, w.sidName(sv.sid))
 			case !ref.live(sv.sid):
 				fail("rode-dead-session", "%s: handshake rides %s which is expired, dropped or invalidated", what, w.sidName(sv.sid))
 			case ref.routes[tr] != sv.sid:
-				fail("rode-wrong-session", "%s: handshake rides %s, the reference map has %s", what, w.sidName(sv.sid), w.sidName(ref.routes[tr]))
+				fail(orphanKey(rs, tr, "rode-wrong-session"), "%s: handshake rides %s, the reference map has %s", what, w.sidName(sv.sid), w.sidName(ref.routes[tr]))
 			}
 			switch sv.reply {
 			case "authorized":
@@ -812,6 +854,11 @@ func runHistory(h history) runOut {
 		var term string
 		switch e.Kind {
 		case "hs":
+			if e.Explicit != 0 {
+				if rs := ref.sess[w.idOfOrd(e.Explicit)]; rs != nil && rs.present && ref.now > rs.exp {
+					rs.present, rs.orphaned = false, true // ClientHandshake's LookupNonExpired deletes it lazily
+				}
+			}
 			sv, r := w.handshake(e)
 			afterHandshake(e, sv, r, what)
 			out.counts["hs-seen-"+sv.kind+"-"+sv.reply]++
@@ -940,6 +987,12 @@ func runHistory(h history) runOut {
 					ref.drop(id)
 				}
 			}
+			for id, rs := range ref.sess {
+				if rs.orphaned { // the sweep also removes mappings whose session is gone
+					rs.orphaned = false
+					ref.drop(id)
+				}
+			}
 			if n != want {
 				fail("invalidate-expired-count", "%s: InvalidateExpired removed %d sessions, %d were expired", what, n, want)
 			}
@@ -949,6 +1002,34 @@ func runHistory(h history) runOut {
 				}
 			}
 			term = fmt.Sprintf("XInvalidateExpired z%d", n)
+		case "import":
+			// a previously used session id is registered again (as a claim re-import does: Store, then
+			// MapCommand) under another tag / address / command, once the old entry is gone
+			if e.K < 1 || e.K > len(w.ids) {
+				continue
+			}
+			id := w.idOfOrd(e.K)
+			if _, stored := w.cache.VerifSessionKeys()[id]; stored {
+				continue
+			}
+			addr, cmdStr := w.addrName[e.Addr], fmt.Sprint(e.Cmd)
+			en := security.NewSessionEntry(id, addr, &security.KeyInfo{Data: bytes.Repeat([]byte{0x5a}, 32), Protocol: "AES"}, nil,
+				time.Now().Add(sessDuration*time.Second), sessLease*time.Second, e.Tag)
+			en.SetInherited(true)
+			w.cache.Store(en)
+			w.cache.MapCommand(e.Tag, addr, cmdStr, id)
+			nrs := &refSess{id: id, tag: e.Tag, addr: addr, cmds: map[string]bool{cmdStr: true}, exp: ref.now + sessDuration, lease: sessLease, present: true, orphanRoutes: map[[3]string]bool{}}
+			for tr, v := range ref.routes {
+				if v == id { // only a mapping orphaned by a lazy expiry and never swept can still be here
+					nrs.orphanRoutes[tr] = true
+					delete(ref.routes, tr)
+				}
+			}
+			ref.sess[id] = nrs
+			ref.routes[[3]string{e.Tag, addr, cmdStr}] = id
+			delete(nrs.orphanRoutes, [3]string{e.Tag, addr, cmdStr})
+			out.counts["import-previously-used-id"]++
+			term = fmt.Sprintf("XImport n%d n%d n%d n%d", w.sidN(id), idx(tags, e.Tag), e.Addr, cmdIdx(e.Cmd))
 		case "lne":
 			id := w.idOfOrd(e.K)
 			_, found := w.cache.LookupNonExpired(id)
@@ -957,7 +1038,7 @@ func runHistory(h history) runOut {
 				fail("dead-session-still-reachable", "%s: LookupNonExpired(%s) finds a session that is expired, dropped or invalidated", what, w.sidName(id))
 			}
 			if rs := ref.sess[id]; rs != nil && rs.present && ref.now > rs.exp {
-				rs.present = false
+				rs.present, rs.orphaned = false, true
 			}
 			term = fmt.Sprintf("XLookupNonExpired n%d %s", w.sidN(id), core.Bool(found))
 		default:
@@ -1027,6 +1108,8 @@ func randEvent(c *core.Ctx, pos int, prev []event) event {
 			e.Mode = "d1"
 		case 1:
 			e.Mode = "d2"
+		case 2:
+			e.Mode = "d3"
 		}
 		switch r.Intn(40) {
 		case 0:
@@ -1040,14 +1123,16 @@ func randEvent(c *core.Ctx, pos int, prev []event) event {
 			e.Explicit = 99
 		}
 		return e
-	case x < 68:
+	case x < 65:
 		return event{Kind: "restart", Addr: r.Intn(2)}
-	case x < 80:
-		return event{Kind: "tick", Dt: []int{500, 1500, 500, 3000}[r.Intn(4)]}
-	case x < 88:
+	case x < 77:
+		return event{Kind: "tick", Dt: []int{500, 1500, 3000, 3000}[r.Intn(4)]}
+	case x < 83:
 		return event{Kind: "inval", K: []int{1, 2, 3, 99}[r.Intn(4)]}
-	case x < 93:
+	case x < 89:
 		return event{Kind: "invalexp"}
+	case x < 94:
+		return event{Kind: "import", K: 1 + r.Intn(2), Tag: tags[r.Intn(3)], Addr: r.Intn(2), Cmd: cmds[r.Intn(3)]}
 	default:
 		return event{Kind: "lne", K: 1 + r.Intn(3)}
 	}
@@ -1075,6 +1160,15 @@ func emit(c *core.Ctx, h history) {
 		c.Count("history-with-resumption")
 	}
 	c.Count(fmt.Sprintf("history-len-%d", len(h.Events)))
+}
+
+func init() {
+	if v := os.Getenv("VERIF_C07_DEADLINE_MS"); v != "" {
+		var ms int
+		if _, err := fmt.Sscan(v, &ms); err == nil && ms > 0 {
+			silentDeadline = time.Duration(ms) * time.Millisecond
+		}
+	}
 }
 
 func gen(c *core.Ctx) error {
@@ -1127,7 +1221,7 @@ func gen(c *core.Ctx) error {
 	}
 
 	hsOK := allHsEvents([]string{"ok"})
-	hsAll := allHsEvents([]string{"ok", "d1", "d2"})
+	hsAll := allHsEvents([]string{"ok", "d1", "d2", "d3"})
 	second := append(append([]event{}, hsAll...), otherEvents()...)
 
 	// 0. directed scenarios (minimised past findings and the scenarios of the property text)
@@ -1141,6 +1235,17 @@ func gen(c *core.Ctx) error {
 		{H("tagA", 0, 421), {Kind: "restart", Addr: 0}, H("tagA", 0, 421), H("tagA", 0, 421), H("tagA", 0, 60007)},
 		{H("tagA", 0, 421), {Kind: "hs", Tag: "tagA", Addr: 0, Cmd: 421, Mode: "d2", Via: "peername"}, H("tagA", 0, 60007), H("tagA", 0, 421)},
 		{H("tagA", 0, 421), {Kind: "hs", Tag: "tagA", Addr: 0, Cmd: 60007, Mode: "d1", Via: "peername"}, H("tagA", 0, 421)},
+		// the peer swallows the resumption request and stays silent until the handshake is cancelled / times out
+		{H("tagA", 0, 421), {Kind: "hs", Tag: "tagA", Addr: 0, Cmd: 421, Mode: "d3", Via: "peername"}, H("tagA", 0, 421), H("tagA", 0, 60007)},
+		{H("", 1, 421), {Kind: "hs", Tag: "", Addr: 1, Cmd: 60007, Mode: "d4", Via: "stream"}, H("", 1, 421)},
+		{H("tagB", 0, 9), {Kind: "hs", Tag: "tagB", Addr: 0, Cmd: 421, Mode: "d4", Via: "peername"}, {Kind: "hs", Tag: "tagB", Addr: 0, Cmd: 421, Mode: "d3", Via: "peername"}, H("tagB", 0, 421)},
+		// expiry first noticed by an id lookup (lazy delete), a sweep in which nothing else expires, then the same id
+		// registered again under another triple; handshakes for the old and the new triple
+		{H("tagA", 0, 421), {Kind: "tick", Dt: 3000}, {Kind: "lne", K: 1}, {Kind: "invalexp"}, {Kind: "import", K: 1, Tag: "tagB", Addr: 1, Cmd: 9}, H("tagA", 0, 421), H("tagB", 1, 9), H("tagA", 0, 60007)},
+		{H("", 0, 421), {Kind: "tick", Dt: 3000}, {Kind: "hs", Tag: "tagB", Addr: 1, Cmd: 9, Mode: "ok", Via: "peername", Explicit: 1}, {Kind: "invalexp"}, {Kind: "import", K: 1, Tag: "tagA", Addr: 0, Cmd: 60007}, H("", 0, 421), H("", 0, 60007), H("tagA", 0, 60007)},
+		{H("tagA", 0, 421), H("tagB", 1, 60007), {Kind: "tick", Dt: 3000}, {Kind: "lne", K: 1}, {Kind: "invalexp"}, {Kind: "invalexp"}, {Kind: "import", K: 1, Tag: "", Addr: 0, Cmd: 421}, H("tagA", 0, 60007), H("", 0, 421)},
+		// the same without a sweep in between (known finding route-orphaned-by-lazy-expiry)
+		{H("tagA", 0, 421), {Kind: "tick", Dt: 3000}, {Kind: "lne", K: 1}, {Kind: "import", K: 1, Tag: "tagB", Addr: 1, Cmd: 9}, H("tagA", 0, 421), H("tagB", 1, 9)},
 		{H("", 1, 9), {Kind: "tick", Dt: 1500}, H("", 1, 9), {Kind: "tick", Dt: 500}, H("", 1, 421), {Kind: "tick", Dt: 500}, H("", 1, 9)},
 		{H("tagB", 0, 9), {Kind: "tick", Dt: 3000}, {Kind: "lne", K: 1}, {Kind: "inval", K: 1}, H("tagB", 0, 9), {Kind: "invalexp"}},
 		{H("tagB", 0, 9), H("tagB", 0, 421), {Kind: "inval", K: 2}, H("tagB", 0, 421), H("tagB", 0, 9)},
